@@ -79,6 +79,17 @@ def check_tokenize(names, text, le):
     toks = list(t.tokenize(text))
     enc = [[x.start, x.end, enc_str(x.string), [] if x.value is None else [x.value]] for x in toks]
     err = None
+    # the matches alone (include_unmatched=False): the kept matches of the full result, in the same order; and the result can be
+    # gone through twice
+    try:
+        res = t.tokenize(text, include_unmatched=False)
+        only = [(x.start, x.end, x.value) for x in res]
+        again_only = [(x.start, x.end, x.value) for x in res] if not hasattr(res, '__next__') else only
+        want_only = [(x.start, x.end, x.value) for x in toks if x.value is not None]
+        if only != want_only or again_only != want_only:
+            err = err or 'tokenize(include_unmatched=False) = %r, the matches of the full result are %r' % (only, want_only)
+    except Exception as ex:   # noqa
+        err = err or 'tokenize(include_unmatched=False) raised %s: %s' % (type(ex).__name__, ex)
     # another tokenizer that stores every word of the text is built and used; the first one answers as before
     other = Trie()
     for w in dict.fromkeys(text.lower().replace('(', ' ( ').replace(')', ' ) ').split()):
